@@ -7,6 +7,7 @@ code -> spec: seeded random / adversarial calls of the real functions are record
 exact rationals) and judged by TLC with the same operators (Trace_IdlBuiltins).
 Python only concretises (ints -> numpy arrays of a dtype) and abstracts (floats -> nearby small rationals).
 """
+import copy
 import json
 import os
 import random
@@ -18,7 +19,35 @@ import numpy as np
 from .. import core, tlaval
 
 FLOAT_TOL = {'f8': 1e-12, 'f4': 2e-6}
-NP = {'f8': np.float64, 'f4': np.float32, 'i8': np.int64, 'i4': np.int32, 'i2': np.int16, 'u1': np.uint8}
+NP = {'f8': np.float64, 'f4': np.float32, 'i8': np.int64, 'i4': np.int32, 'i2': np.int16, 'u1': np.uint8,
+      'u2': np.uint16, 'i1': np.int8, 'bool': np.bool_}
+# integer grids: an enumerated array over {0,1,2,5} is scaled by K so that the small integer types are used over their whole
+# range (laws SmoothScales / MedianScales / RunMed*Scales / RebinScales of the spec: the specified result scales with K)
+INT_SCALE = {'u1': 50, 'u2': 13000, 'i2': 6000}
+REBIN_SCALE = {'u2': 300, 'i2': 150}
+# argument forms (spec: ScalarForms, DimsForms; law FormIndependent)
+WFORMS = ['int', 'np.int64', 'np.int32', 'np.int16', 'np.uint8', '0-d array']
+DFORMS = ['tuple of int', 'tuple of np.int64', 'tuple of np.int32', 'tuple of np.int16', 'tuple of 0-d arrays', '1-d ndarray', 'list']
+IDXDT = ['i8', 'i4', 'i2', 'i1', 'u1', 'u2']
+_SCAL = {'int': int, 'np.int64': np.int64, 'np.int32': np.int32, 'np.int16': np.int16, 'np.uint8': np.uint8,
+         '0-d array': lambda v: np.array(v)}
+
+
+def scalar_form(w, form):
+    return _SCAL[WFORMS[form % len(WFORMS)]](w)
+
+
+def dims_form(d, form):
+    k = DFORMS[form % len(DFORMS)]
+    if k == 'tuple of int':
+        return tuple(int(v) for v in d)
+    if k == '1-d ndarray':
+        return np.array(d, dtype=np.int64)
+    if k == 'list':
+        return [int(v) for v in d]
+    if k == 'tuple of 0-d arrays':
+        return tuple(np.array(v) for v in d)
+    return tuple(_SCAL[k[len('tuple of '):]](v) for v in d)
 MAX_VIOL_PER_FN = 25
 
 
@@ -92,22 +121,25 @@ def fast_states(r, selfcheck=150):
 # ----------------------------------------------------------------------------------------------
 # concretise a spec call, execute it, abstract the result
 # ----------------------------------------------------------------------------------------------
-def execute(fn, arr, w, flag, d):
-    """Run one call on the real code.  Returns dict(err, exc, shape, dtype, vals) with vals a flat list."""
+def execute(fn, arr, w, flag, d, form=0):
+    """Run one call on the real code; `form` selects how the width / the dims / the index array are typed.
+    Returns dict(err, exc, shape, dtype, vals) with vals a flat list."""
     import pydl
     try:
         if fn == 'smooth':
-            res = pydl.smooth(arr, w, edge_truncate=flag) if flag else pydl.smooth(arr, w)
+            wf = scalar_form(w, form)
+            res = pydl.smooth(arr, wf, edge_truncate=flag) if flag else pydl.smooth(arr, wf)
         elif fn == 'median':
             res = pydl.median(arr, even=True) if flag else pydl.median(arr)
         elif fn in ('runmed1', 'runmed2'):
-            res = pydl.median(arr, w)
+            res = pydl.median(arr, scalar_form(w, form))
         elif fn == 'uniq':
             res = pydl.uniq(arr)
         elif fn == 'uniqidx':
-            res = pydl.uniq(arr, np.array(d, dtype=np.int64))
+            res = pydl.uniq(arr, np.array(d, dtype=NP[IDXDT[form % len(IDXDT)]]))
         elif fn == 'rebin':
-            res = pydl.rebin(arr, tuple(d), sample=True) if flag else pydl.rebin(arr, tuple(d))
+            df = dims_form(d, form)
+            res = pydl.rebin(arr, df, sample=True) if flag else pydl.rebin(arr, df)
         else:
             raise core.MachineryError('unknown fn ' + fn)
     except ValueError as ex:
@@ -121,12 +153,13 @@ def execute(fn, arr, w, flag, d):
             if a.dtype.kind in 'fiu' else str(a.dtype), 'vals': a.ravel().tolist(), 'is_array': isinstance(res, np.ndarray)}
 
 
-def concretise(c, dt):
-    return np.array(c['x'], dtype=NP[dt]).reshape(tuple(c['shape']))
+def concretise(c, dt, K=1):
+    return np.array([K * v for v in c['x']], dtype=NP[dt]).reshape(tuple(c['shape']))
 
 
-def judge(c, exp, obs, dt):
-    """Compare an observed outcome with the outcome TLC specified.  Returns None or a short reason."""
+def judge(c, exp, obs, dt, K=1):
+    """Compare an observed outcome with the outcome TLC specified (for the array scaled by K: K times that).
+    Returns None or a short reason."""
     fn = c['fn']
     if exp['err']:
         if obs['exc'] == 'ValueError':
@@ -145,31 +178,47 @@ def judge(c, exp, obs, dt):
         return None
     if fn == 'rebin' and obs['dtype'] != dt:
         return 'dtype %s, input dtype %s' % (obs['dtype'], dt)
-    if dt in FLOAT_TOL:
-        tol = FLOAT_TOL[dt]
-        vals = obs['vals']
+    vals = obs['vals']
+    if obs['dtype'] in FLOAT_TOL:                   # a float result: the exact rational up to rounding error
+        tol = FLOAT_TOL[dt] if dt in FLOAT_TOL else FLOAT_TOL[obs['dtype']]
         for k, (num, den) in enumerate(exp['val']):
-            e = num / den
+            e = K * num / den
             if not abs(vals[k] - e) <= tol * max(1.0, abs(e)):
-                return 'element %d is %r, specified %d/%d' % (k, vals[k], num, den)
+                return 'element %d is %r, specified %d/%d' % (k, vals[k], K * num, den)
         return None
-    # integer dtype (rebin only): with SAMPLE the result is a selection of input elements, hence exact;
-    # the rounding of integer means / interpolations is left open by the statement (see assumptions)
-    if fn == 'rebin' and c['flag']:
-        for k, (num, den) in enumerate(exp['val']):
-            if obs['vals'][k] * den != num:
-                return 'element %d is %r, specified %d/%d' % (k, obs['vals'][k], num, den)
+    # an integer (or bool) result.  Selections (medians, SAMPLE) are exact.  smooth / rebin of integer data return the
+    # input type, the exact value is not representable: any rounding is accepted (spec: IntegerResultOK), i.e. at
+    # most 1 away per resampled axis
+    slack = 0
+    if fn == 'smooth':
+        slack = 1
+    elif fn == 'rebin' and not c['flag']:
+        slack = max(1, sum(1 for a, b2 in zip(c['shape'], c['d']) if a != b2))
+    for k, (num, den) in enumerate(exp['val']):
+        diff = abs(int(vals[k]) * den - K * num)
+        if (diff > slack * den) if slack else (diff != 0):
+            return 'element %d is %r, specified %d/%d%s' % (k, vals[k], K * num, den,
+                                                            ' (any rounding accepted)' if slack else '')
     return None
 
 
-def classify(c, exp, obs):
-    """Name the known deviation that explains a mismatch exactly (spec: Dev_FloorBelowExplains)."""
-    if c['fn'] != 'rebin' or not c['flag'] or exp['err'] or obs['err'] or len(c['shape']) != 1:
+def classify(c, exp, obs, dt='f8', K=1):
+    """Name the known deviation that explains a mismatch (spec: Dev_* operators)."""
+    if exp['err'] or obs['err']:
+        return None
+    if c['fn'] == 'smooth' and c['flag'] and dt in ('u1', 'u2', 'i2', 'i1') and len(obs['vals']) == len(c['x']):
+        n, h = len(c['x']), (c['w'] + 1 if c['w'] % 2 == 0 else c['w']) // 2
+        wrong = [k for k, (num, den) in enumerate(exp['val']) if abs(int(obs['vals'][k]) * den - K * num) > den]
+        if wrong and all(k < h or k > n - 1 - h for k in wrong):
+            return 'D-C14-2'
+    if c['fn'] == 'rebin' and not c['flag'] and dt in ('u1', 'u2', 'i2', 'i1') and any(b2 > a for a, b2 in zip(c['shape'], c['d'])):
+        return 'D-C14-3'
+    if c['fn'] != 'rebin' or not c['flag'] or len(c['shape']) != 1:
         return None
     d0, d = c['shape'][0], c['d'][0]
     if d <= d0 or tuple(obs['shape']) != (d,):
         return None
-    x = c['x']
+    x = [K * v for v in c['x']]
     for i in range(d):
         fp = (i * d0) // d
         if obs['vals'][i] == x[fp]:
@@ -194,14 +243,21 @@ def is_nontrivial(c, exp):
     return exp['err'] or tuple(c['d']) != tuple(c['shape'])
 
 
-def dtypes_for(c, n):
-    """The dtypes one spec call is concretised with (the spec does not depend on the dtype)."""
+def dtypes_for(c, n, quick=True):
+    """The (dtype, scale) pairs one spec call is concretised with (the spec does not depend on the dtype)."""
     fn = c['fn']
+    small = max(c['x']) <= 1
     if fn in ('uniq', 'uniqidx'):
-        return ('i8', 'f8')
+        return (('i8', 1), ('f8', 1), ((('u1', 'u2', 'i2', 'i4', 'bool') if small else ('u1', 'u2', 'i2', 'i4', 'u1'))[n % 5], 1))
     if fn == 'rebin':
-        return ('f8', ('f4', 'i4', 'u1', 'i2', 'i8')[n % 5])
-    return ('f8', 'f4') if n % 4 == 0 else ('f8',)
+        dt = ('f4', 'i4', 'u1', 'i2', 'i8', 'u2', 'bool')[n % 7]
+        if dt == 'bool' and not (small and c['flag']):
+            dt = 'u1'
+        return (('f8', 1), (dt, REBIN_SCALE.get(dt, 1)))
+    if fn == 'runmed2' and not quick and n % 3:
+        return (('f8', 1),)
+    dt = ('f4', 'i8', 'i4', 'i2', 'u2', 'u1')[n % 6]
+    return (('f8', 1), (dt, INT_SCALE.get(dt, 1)))
 
 
 class Reporter:
@@ -221,33 +277,36 @@ class Reporter:
         self.ctx.violation(case, finding=finding)
 
 
-def call_text(c, dt):
+def call_text(c, dt, K=1, form=0):
     fn = c['fn']
-    arr = 'np.array(%r, dtype=%r).reshape(%r)' % (list(c['x']), dt, tuple(c['shape']))
+    arr = 'np.array(%r, dtype=%r).reshape(%r)' % ([K * v for v in c['x']], dt, tuple(c['shape']))
+    wf = WFORMS[form % len(WFORMS)]
+    wtxt = '%d' % c['w'] if wf == 'int' else ('np.array(%d)' % c['w'] if wf == '0-d array' else '%s(%d)' % (wf, c['w']))
     if fn == 'smooth':
-        return 'smooth(%s, %d, edge_truncate=%r)' % (arr, c['w'], c['flag'])
+        return 'smooth(%s, %s, edge_truncate=%r)' % (arr, wtxt, c['flag'])
     if fn == 'median':
         return 'median(%s, even=%r)' % (arr, c['flag'])
     if fn in ('runmed1', 'runmed2'):
-        return 'median(%s, %d)' % (arr, c['w'])
+        return 'median(%s, %s)' % (arr, wtxt)
     if fn == 'uniq':
         return 'uniq(%s)' % arr
     if fn == 'uniqidx':
-        return 'uniq(%s, np.array(%r))' % (arr, list(c['d']))
-    return 'rebin(%s, %r, sample=%r)' % (arr, tuple(c['d']), c['flag'])
+        return 'uniq(%s, np.array(%r, dtype=%r))' % (arr, list(c['d']), IDXDT[form % len(IDXDT)])
+    return 'rebin(%s, %r [as %s], sample=%r)' % (arr, tuple(c['d']), DFORMS[form % len(DFORMS)], c['flag'])
 
 
-def check_case(c, exp, dt, transpose=False):
-    """Execute one spec call with dtype dt; returns (reason or None, obs)."""
-    arr = concretise(c, dt)
+def check_case(c, exp, dt, transpose=False, K=1, form=0):
+    """Execute one spec call with dtype dt (values scaled by K, scalar arguments in form `form`);
+    returns (reason or None, obs)."""
+    arr = concretise(c, dt, K)
     if transpose:                                   # law RunMed2Transposes (checked by TLC)
-        obs = execute(c['fn'], np.ascontiguousarray(arr.T), c['w'], c['flag'], c['d'])
+        obs = execute(c['fn'], np.ascontiguousarray(arr.T), c['w'], c['flag'], c['d'], form)
         if not obs['err'] and tuple(obs['shape']) == (c['shape'][1], c['shape'][0]):
             back = np.array(obs['vals']).reshape(obs['shape']).T
             obs = dict(obs, shape=tuple(c['shape']), vals=back.ravel().tolist())
     else:
-        obs = execute(c['fn'], arr, c['w'], c['flag'], c['d'])
-    return judge(c, exp, obs, dt), obs
+        obs = execute(c['fn'], arr, c['w'], c['flag'], c['d'], form)
+    return judge(c, exp, obs, dt, K), obs
 
 
 def brief(obs):
@@ -272,10 +331,10 @@ def quarter(k):
     return [f.numerator, f.denominator]
 
 
-def record_call(fn, xq, shape, w, flag, d, dt='f8', check_val=True):
+def record_call(fn, xq, shape, w, flag, d, dt='f8', check_val=True, form=0):
     """xq: input values in quarters (ints k meaning k/4; for integer dtypes k must be a multiple of 4)."""
     arr = np.array([k / 4 for k in xq], dtype=NP[dt]).reshape(tuple(shape))
-    obs = execute(fn, arr, w, flag, d)
+    obs = execute(fn, arr, w, flag, d, form)
     exact = True
     val = []
     if not obs['err']:
@@ -284,11 +343,12 @@ def record_call(fn, xq, shape, w, flag, d, dt='f8', check_val=True):
             exact = obs['is_array'] and obs['dtype'][0] in 'iu'
         else:
             for v in obs['vals']:
-                q, e = to_rat(float(v), 1e-11 if dt == 'f8' else 1e-5)
+                q, e = to_rat(float(v), 1e-5 if 'f4' in (dt, obs['dtype']) else 1e-11)
                 val.append(q)
                 exact = exact and e
     return {'fn': fn, 'x': [quarter(k) for k in xq], 'shape': list(shape), 'w': w, 'flag': bool(flag), 'd': list(d),
-            'dt_in': dt, 'dt_out': obs['dtype'], 'check_val': bool(check_val), 'exact': bool(exact),
+            'dt_in': dt, 'dt_out': obs['dtype'], 'check_val': bool(check_val), 'exact': bool(exact), 'form': form,
+            'int_out': bool(not obs['err'] and obs['dtype'] not in FLOAT_TOL),
             'ret': {'err': obs['err'], 'exc': obs['exc'] or '', 'shape': list(obs['shape']), 'val': val}}
 
 
@@ -302,44 +362,72 @@ def random_records(ctx, rng, count):
             return [rng.choice(pool) for _ in range(n)]
         return [rng.randint(-spread, spread) for _ in range(n)]
 
+    RANGE = {'u1': (0, 255), 'u2': (0, 65535), 'i2': (-32768, 32767), 'i4': (-100000, 100000), 'i8': (-100000, 100000),
+             'bool': (0, 1)}
+
+    def typed(n, repeats=False, sort=False, dts=('i8', 'i4', 'i2', 'u2', 'u1'), pfloat=0.55):
+        """(dtype, values in quarters): float64 data k/4, or integer data over the whole range of an integer dtype"""
+        if rng.random() < pfloat:
+            v = values(n, repeats=repeats)
+            return 'f8', (sorted(v) if sort else v)
+        dt = rng.choice(dts)
+        lo, hi = RANGE[dt]
+        if repeats:
+            pool = [rng.randint(lo, hi) for _ in range(rng.randint(1, 4))]
+            v = [rng.choice(pool) for _ in range(n)]
+        else:
+            v = [rng.choice([lo, hi, rng.randint(lo, hi), rng.randint(lo, hi)]) for _ in range(n)]
+        return dt, [4 * q for q in (sorted(v) if sort else v)]
+
     for k in range(count):
         fn = fns[k % len(fns)]
+        form = rng.randrange(42)
         if fn == 'smooth':
             n = rng.randint(1, 24)
             w = rng.randint(0, n) if rng.random() < 0.7 else max(0, n - rng.choice([0, 0, 1]))     # any requested width <= n
-            recs.append(record_call(fn, values(n, repeats=rng.random() < 0.2), [n], w, rng.random() < 0.5, []))
+            dt, x = typed(n, repeats=rng.random() < 0.2)
+            recs.append(record_call(fn, x, [n], w, rng.random() < 0.5, [], dt=dt, form=form))
         elif fn == 'median':
             if rng.random() < 0.7:
                 shape = [rng.randint(1, 20)]
             else:
                 shape = [rng.randint(1, 5), rng.randint(1, 5)]
             n = int(np.prod(shape))
-            recs.append(record_call(fn, values(n, repeats=rng.random() < 0.5), shape, 0, rng.random() < 0.5, []))
+            dt, x = typed(n, repeats=rng.random() < 0.5)
+            recs.append(record_call(fn, x, shape, 0, rng.random() < 0.5, [], dt=dt))
         elif fn == 'runmed1':
             n = rng.randint(1, 20)
             w = rng.choice([v for v in range(1, n + 1, 2)])
-            recs.append(record_call(fn, values(n, repeats=rng.random() < 0.4), [n], w, False, []))
+            dt, x = typed(n, repeats=rng.random() < 0.4)
+            recs.append(record_call(fn, x, [n], w, False, [], dt=dt, form=form))
         elif fn == 'runmed2':
             shape = [rng.randint(1, 7), rng.randint(1, 7)]
             w = rng.choice([v for v in range(1, min(shape) + 1, 2)])
-            recs.append(record_call(fn, values(shape[0] * shape[1], repeats=rng.random() < 0.4), shape, w, False, []))
+            dt, x = typed(shape[0] * shape[1], repeats=rng.random() < 0.4)
+            recs.append(record_call(fn, x, shape, w, False, [], dt=dt, form=form))
         elif fn == 'uniq':
             n = rng.randint(1, 20)
-            dt = rng.choice(['i8', 'f8', 'i4'])
-            x = sorted(values(n, spread=10, repeats=rng.random() < 0.7))
-            if dt != 'f8':
-                x = [4 * v for v in x]
+            if rng.random() < 0.5:
+                dt = rng.choice(['i8', 'f8', 'i4'])
+                x = sorted(values(n, spread=10, repeats=rng.random() < 0.7))
+                if dt != 'f8':
+                    x = [4 * v for v in x]
+            else:
+                dt, x = typed(n, repeats=rng.random() < 0.8, sort=True, dts=('u1', 'u2', 'i2', 'bool', 'i8'), pfloat=0)
             recs.append(record_call(fn, x, [n], 0, False, [], dt=dt))
         elif fn == 'uniqidx':
             n = rng.randint(1, 14)
-            dt = rng.choice(['i8', 'f8'])
-            x = values(n, spread=10, repeats=rng.random() < 0.8)
-            if dt != 'f8':
-                x = [4 * v for v in x]
+            if rng.random() < 0.5:
+                dt = rng.choice(['i8', 'f8'])
+                x = values(n, spread=10, repeats=rng.random() < 0.8)
+                if dt != 'f8':
+                    x = [4 * v for v in x]
+            else:
+                dt, x = typed(n, repeats=rng.random() < 0.8, dts=('u1', 'u2', 'i2', 'bool', 'i4'), pfloat=0)
             order = list(range(n))
             rng.shuffle(order)                       # random tie-breaking
             order.sort(key=lambda j: x[j])
-            recs.append(record_call(fn, x, [n], 0, False, order, dt=dt))
+            recs.append(record_call(fn, x, [n], 0, False, order, dt=dt, form=form))
         elif fn == 'rebin':
             rank = rng.randint(1, 3)
             shape, d = [], []
@@ -361,19 +449,18 @@ def random_records(ctx, rng, count):
             if int(np.prod(d)) > 600:
                 d = list(shape)
             sample = rng.random() < 0.5
-            dt = rng.choice(['f8', 'f8', 'f8', 'f4', 'i4', 'u1', 'i2'])
             n = int(np.prod(shape))
-            if dt == 'f8':
-                x = values(n)
-            elif dt == 'u1':
-                x = [4 * abs(v) for v in values(n)]
+            if rng.random() < 0.1:
+                dt, x = 'f4', [4 * v for v in values(n)]
             else:
-                x = [4 * v for v in values(n)]
-            recs.append(record_call('rebin', x, shape, 0, sample, d, dt=dt, check_val=(dt == 'f8' or sample)))
+                dt, x = typed(n, dts=('i8', 'i4', 'i2', 'u2', 'u1', 'u1', 'bool') if sample else ('i8', 'i4', 'i2', 'u2', 'u1', 'u1'),
+                              pfloat=0.5)
+            recs.append(record_call('rebin', x, shape, 0, sample, d, dt=dt, check_val=(dt != 'f4' or sample), form=form))
         else:  # rebinfloor: large expansion factors, ramp input: the pick positions are visible
             d0 = rng.randint(2, 6)
             f = rng.choice([3, 7, 49, 98, 103, 107]) if rng.random() < 0.4 else rng.randint(2, 120)
-            recs.append(record_call('rebin', [4 * v for v in range(d0)], [d0], 0, rng.random() < 0.7, [d0 * f]))
+            recs.append(record_call('rebin', [4 * v for v in range(d0)], [d0], 0, rng.random() < 0.7, [d0 * f], form=form,
+                                    dt=rng.choice(['f8', 'f8', 'i4', 'u1'])))
     return recs
 
 
@@ -555,12 +642,56 @@ def trace_direction(ctx, rep):
             c = {'fn': rec['of'], 'x': [HUGE * b[0] + a / q for (a, q), b in zip(rec['x'], rec['xb'])], 'shape': rec['shape'],
                  'w': rec['w'], 'flag': rec['flag'], 'd': rec['d']}
         else:
-            c = {'fn': rec['fn'], 'x': [a / b for a, b in rec['x']], 'shape': rec['shape'], 'w': rec['w'],
-                 'flag': rec['flag'], 'd': rec['d']}
-        rep.report('recorded call rejected by Trace_IdlBuiltins: %s: %s' % (call_text(c, rec['dt_in'])[:170], why),
-                   {'call': {'fn': rec.get('of', rec['fn'])}, 'record': rec, 'why': why},
-                   finding='D-C14-1' if why.startswith('D-C14-1') else None)
+            c = {'fn': rec['fn'], 'x': [a // b if rec['dt_in'] not in FLOAT_TOL else a / b for a, b in rec['x']],
+                 'shape': rec['shape'], 'w': rec['w'], 'flag': rec['flag'], 'd': rec['d']}
+        finding = 'D-C14-1' if why.startswith('D-C14-1') else None
+        if rec['fn'] == 'smooth' and rec['flag'] and rec['dt_in'] in ('u1', 'u2', 'i2') and why.startswith('value'):
+            finding = 'D-C14-2'
+        if rec['fn'] == 'rebin' and not rec['flag'] and rec['dt_in'] in ('u1', 'u2', 'i2') and why.startswith('value'):
+            finding = 'D-C14-3'
+        rep.report('recorded call rejected by Trace_IdlBuiltins: %s: %s' % (call_text(c, rec['dt_in'], 1, rec.get('form', 0))[:200], why),
+                   {'call': {'fn': rec.get('of', rec['fn'])}, 'record': rec, 'why': why}, finding=finding)
     ctx.sample({'recorded_call': {k: (v if k not in ('x',) else v[:8]) for k, v in recs[0].items()}})
+    # ---- binding self-test: falsified observations must be rejected by the same judge -------------------------------
+    fals = []
+    kinds = {}
+    for k, rec in enumerate(recs):
+        if k in bad or len(fals) >= 280:
+            continue
+        r2 = copy.deepcopy(rec)
+        ret = r2['ret']
+        m = k % 5
+        if ret['err']:                                   # a rejected call reported as accepted
+            what = 'error_dropped'
+            ret.update(err=False, exc='', shape=[1], val=[[0, 1]])
+            r2.update(dt_out=r2['dt_in'], int_out=False)
+            if rec['fn'] == 'dyn':
+                continue
+        elif rec['fn'] == 'dyn':
+            what = 'dyn_huge_part'
+            j = k % len(ret['valb'])
+            ret['valb'][j] = [ret['valb'][j][0] + ret['valb'][j][1], ret['valb'][j][1]]
+        elif m == 0 or not ret['val']:
+            what = 'accepted_reported_as_error'
+            ret.update(err=True, exc='ValueError', shape=[], val=[])
+        elif m == 1:
+            what = 'shape'
+            ret['shape'] = [len(ret['val']) + 1]
+            ret['val'] = ret['val'] + [ret['val'][-1]]
+        elif m == 2 and rec['fn'] == 'rebin':
+            what = 'dtype'
+            r2['dt_out'] = 'f4' if rec['dt_out'] != 'f4' else 'f8'
+        elif not rec['check_val']:
+            continue
+        else:                                            # one element moved beyond every tolerance / rounding slack
+            what = 'value'
+            j = (k * 7) % len(ret['val'])
+            step = 7 if rec['int_out'] else (len(rec['x']) + 5 if rec['fn'] in ('uniq', 'uniqidx') else 1)
+            ret['val'][j] = [ret['val'][j][0] + step * ret['val'][j][1], ret['val'][j][1]]
+        kinds[what] = kinds.get(what, 0) + 1
+        fals.append(r2)
+    core.binding_selftest(ctx, 'Trace_IdlBuiltins', fals, 'recorded_calls')
+    ctx.cov['parts']['selftest_recorded_calls']['by_falsified_field'] = kinds
 
 
 # ----------------------------------------------------------------------------------------------
@@ -576,8 +707,15 @@ def run(ctx):
     ctx.assumptions = [
         'floats are compared with the exact rational results up to 1e-12 relative (float64) / 2e-6 (float32)',
         'smooth: every requested width 0..n (made odd afterwards, effective width up to n+1); medians: odd widths not exceeding the smallest dimension',
-        'integer dtypes (rebin): shape and dtype always, values only with sample=True; the rounding of integer block means and '
-        'interpolations is left open by the statement (pydl documents it as not IDL compatible, upstream issue #60)',
+        'array dtype is a dimension of the case space: every call also runs with float32 / int64 / int32 / int16 / uint16 / uint8 / '
+        'bool data as the values fit (integer grids = the enumerated array times K, laws *Scales); widths, dims and index arrays '
+        'as Python ints, numpy integer scalars of several widths, 0-d arrays, 1-d arrays, lists (law FormIndependent)',
+        'integer results of smooth / rebin (pydl returns the input type): any rounding accepted, i.e. at most 1 away from the '
+        'exact value per resampled axis (IntegerResultOK); selections (medians, sample=True, uniq) exact; wrap-around is a violation',
+        'smooth / median: the statement quantifies over float arrays; the same VALUES typed as integers are taken to be in its '
+        'domain (pydl documents "same type as signal"), with the rounding of integer results left open as above',
+        'dims given as 8/16-bit numpy integers whose products overflow that type raise OverflowError in numpy 2 (a clear '
+        'exception, not exercised); bool data only for uniq and rebin(sample=True) (no arithmetic defined on them)',
         'dynamic range: elements whose reach contains a 2^60-sized sample are held to 1e-11 of that size, all others to '
         '1e-12 relative to their own value; a small window next to a huge sample must not lose precision',
         'uniq(x, index) on a constant array: both index[n-1] (statement) and n-1 (IDL source) are accepted',
@@ -589,6 +727,7 @@ def run(ctx):
     n = 0
     per = {}
     smooth_tab, rebin_pat, delta_tab = {}, {}, {}
+    forms = {}
     for st in fast_states(r):
         c, exp = st['c'], st['exp']
         if c['fn'] in ('root', 'seed'):
@@ -605,20 +744,24 @@ def run(ctx):
                 delta_tab.setdefault((c['shape'], c['d']), {})[c['x'].index(1)] = flat(exp)
             else:
                 rebin_pat.setdefault((c['shape'], c['d']), []).append((c['x'], flat(exp)))
-        runs = [(dt, False) for dt in dtypes_for(c, hash((c['x'], c['shape'], c['w'], c['d'])))]
+        h = hash((c['x'], c['shape'], c['w'], c['d']))
+        runs = [(dt, K, False) for dt, K in dtypes_for(c, h, ctx.quick)]
         if c['fn'] == 'runmed2':
-            runs.append(('f8', True))
+            runs.append(('f8', 1, True))
         first_obs = None
-        for dt, tr in runs:
-            why, obs = check_case(c, exp, dt, transpose=tr)
+        for j, (dt, K, tr) in enumerate(runs):
+            form = (h // 7 + 3 * j) % 42 if j else h % 42      # width / dims / index array typed differently per run
+            why, obs = check_case(c, exp, dt, transpose=tr, K=K, form=form)
             first_obs = first_obs or obs
             ctx.evaluated(1, c['fn'])
             ctx.validated()
+            forms[dt] = forms.get(dt, 0) + 1
             if why:
-                text = call_text(c, dt) + (' [called on the transposed image]' if tr else '')
-                rep.report('%s: %s' % (text[:200], why),
-                           {'call': c, 'dtype': dt, 'transposed': tr, 'expected': exp, 'observed': brief(obs), 'why': why},
-                           finding=classify(c, exp, obs))
+                text = call_text(c, dt, K, form) + (' [called on the transposed image]' if tr else '')
+                rep.report('%s: %s' % (text[:230], why),
+                           {'call': c, 'dtype': dt, 'scale': K, 'form': form, 'transposed': tr, 'expected': exp,
+                            'observed': brief(obs), 'why': why},
+                           finding=classify(c, exp, obs, dt, K))
         if per[c['fn']] % 2000 == 7 and len(c['x']) <= 12:
             ctx.sample({'call': c, 'expected': exp, 'observed': brief(first_obs)}, limit=5)
     try:
@@ -632,6 +775,7 @@ def run(ctx):
     if rep.suppressed:
         print('(%d further failing cases not written as replay files)' % rep.suppressed)
     ctx.cov['calls_by_function'] = per
+    ctx.cov['executions_by_array_dtype'] = forms
     ctx.exhaustive = not ctx.quick
 
 
@@ -664,7 +808,7 @@ def replay(ctx, case):
         rec = case['record']
         xq = [Fraction(a, b) * 4 for a, b in rec['x']]
         new = record_call(rec['fn'], [int(v) for v in xq], rec['shape'], rec['w'], rec['flag'], rec['d'], dt=rec['dt_in'],
-                          check_val=rec['check_val'])
+                          check_val=rec['check_val'], form=rec.get('form', 0))
         bad = core.validate_records(ctx, 'Trace_IdlBuiltins', [new])
         ctx.validated()
         print('replayed recorded call:', call_text(dict(new, x=[a / b for a, b in new['x']]), new['dt_in']), '\nverdict:', bad.get(0, 'accepted'))
@@ -674,9 +818,10 @@ def replay(ctx, case):
     c, exp = case['call'], case['expected']
     c = dict(c, x=tuple(c['x']), shape=tuple(c['shape']), d=tuple(c['d']))
     exp = dict(exp, val=[tuple(v) for v in exp['val']], alt=[tuple(v) for v in exp['alt']], shape=tuple(exp['shape']))
-    why, obs = check_case(c, exp, case.get('dtype', 'f8'), transpose=case.get('transposed', False))
+    K, form = case.get('scale', 1), case.get('form', 0)
+    why, obs = check_case(c, exp, case.get('dtype', 'f8'), transpose=case.get('transposed', False), K=K, form=form)
     ctx.validated()
-    print('replayed call:', call_text(c, case.get('dtype', 'f8')), '\nobserved:', brief(obs), '\nspecified:', exp,
+    print('replayed call:', call_text(c, case.get('dtype', 'f8'), K, form), '\nobserved:', brief(obs), '\nspecified (times %d):' % K, exp,
           '\nverdict:', why or 'conforms')
     if why:
         ctx.violation(dict(case, what=case.get('what', why)))
